@@ -28,7 +28,7 @@ from .. import alpha, core, sxvm
 LEVEL = "exploration"
 RULE = ("(equation set, generator, option combination) x function x input lattice; inputs: per-argument patterns {zeros, ones, 0.7 e1, "
         "alternating, seeded generic, x50, x1e-9, negative generic} swept per argument with the others cycling + full product of 3 patterns "
-        "on the first arguments (cap 2500 per function); process environments {python -O, -OO, TMPDIR on another filesystem, TMPDIR missing, hash seed 1, locale de_DE} x all sets x 3 option sets. non-trivial = input not all zeros; distinct by (function, raw input bytes)")
+        "on the first arguments (cap 2500 per function); process environments {python -O, -OO, TMPDIR on another filesystem, TMPDIR missing, hash seed 1, locale de_DE} x all sets x 3 option sets; 13 spellings of the destination directory (pathlib, relative, trailing separator, space, unicode, symlink, stale contents, ...) x 4 sets. non-trivial = input not all zeros; distinct by (function, raw input bytes)")
 ASSUMPTIONS = ["gcc, libm and ctypes trusted; NaN *arguments* are CasADi's contract and not judged",
                "mex=True output cannot be compiled here (no MATLAB headers): generation and function-set completeness only",
                "thorough tier: every option combination is generated and its function set checked; compile+run on the tier's covering subset"]
@@ -662,6 +662,89 @@ class _Env:
         return explore_env(case)
 
 
+def explore_paths(case):
+    """the destination directory spelled the ways a caller spells it: a call that succeeds must have written exactly the reference files
+    into exactly that directory (a refusal - an exception - is not a violation of this property, except for the plain absolute string)"""
+    import pathlib
+    setname = case["set"]
+    res = core.Result()
+    E = equation_sets()[setname]
+    tmp = os.path.realpath(tempfile.mkdtemp(prefix="c09p_", dir=os.environ.get("VERIF_SCRATCH") or None))
+    cwd0 = os.getcwd()
+    try:
+        ref_files = _generate(E, os.path.join(tmp, "reference"), {})
+        work = os.path.join(tmp, "work")
+        os.makedirs(work)
+        os.makedirs(os.path.join(work, "real_target"))
+        os.symlink(os.path.join(work, "real_target"), os.path.join(work, "link"))
+        stale_opts = dict(with_header=False, main=True) if E["kind"] != "est" else dict(with_header=False, main=True, with_mem=False)
+        _generate(E, os.path.join(work, "stale"), stale_opts)
+        open(os.path.join(work, "stale", "notes.txt"), "w").write("keep me")
+        spellings = [("abs_str", os.path.join(work, "abs"), "abs"), ("pathlib_Path", pathlib.Path(work) / "pl", "pl"), ("trailing_separator", os.path.join(work, "ts") + os.sep, "ts"),
+                     ("relative", "rel", "rel"), ("dot_relative", os.path.join(".", "dotrel"), "dotrel"), ("relative_with_parent", os.path.join("real_target", "..", "viaparent"), "viaparent"),
+                     ("space_in_name", os.path.join(work, "with space"), "with space"), ("unicode_name", os.path.join(work, "\u00fcn\u00ef_\u76ee\u5f55"), "\u00fcn\u00ef_\u76ee\u5f55"),
+                     ("symlinked_directory", os.path.join(work, "link"), "real_target"), ("existing_directory_with_stale_output", os.path.join(work, "stale"), "stale"),
+                     ("dotted_name", os.path.join(work, "v1.2.out"), "v1.2.out"), ("name_ending_in_c", os.path.join(work, "gen.c"), "gen.c"), ("long_name", os.path.join(work, "d" * 120), "d" * 120)]
+        os.chdir(work)
+        for tag, dest, where in spellings:
+            res.count("evaluations")
+            res.count("programs")
+            res.nontrivial.add(hash((setname, tag)))
+            before = {d for d in os.listdir(work)}
+            try:
+                with contextlib.redirect_stdout(io.StringIO()):
+                    if E["kind"] == "single":
+                        (nm, fns), = E["sets"].items()
+                        E["gen"](fns, filename=E["files"][nm], dest_dir=dest)
+                    else:
+                        E["gen"](E["sets"], dest)
+            except Exception as ex:
+                if tag == "abs_str":
+                    res.fail(site=setname, clause="generation_into_plain_absolute_directory_succeeds", cls=tag, detail=dict(error="%s: %s" % (type(ex).__name__, str(ex)[:200])), sub="paths", case=case)
+                else:
+                    res.count("refused")
+                continue
+            finally:
+                os.chdir(work)
+            got = {}
+            target = os.path.join(work, where)
+            if os.path.isdir(target):
+                for fn in sorted(os.listdir(target)):
+                    fp = os.path.join(target, fn)
+                    if os.path.isfile(fp):
+                        got[fn] = open(fp).read()
+            extra_ok = {"notes.txt"} if tag == "existing_directory_with_stale_output" else set()
+            stale_left = {}
+            if tag == "existing_directory_with_stale_output":
+                if got.get("notes.txt") != "keep me":
+                    res.fail(site=setname, clause="foreign_file_in_destination_untouched", cls=tag, detail=dict(files=sorted(got)), sub="paths", case=case)
+                # files of the earlier generation that the default generation does not produce may remain; those it produces must be current
+                stale_left = {k: v for k, v in got.items() if k not in ref_files}
+                got = {k: v for k, v in got.items() if k in ref_files}
+            res.outcomes.add(hash((tag, tuple(sorted(got)))))
+            if got != ref_files:
+                diff = sorted(set(got) ^ set(ref_files)) or [f for f in ref_files if got.get(f) != ref_files[f]]
+                res.fail(site=setname, clause="files_written_to_the_named_directory_equal_reference", cls=tag, detail=dict(spelling=tag, destination=str(dest), differing_or_missing=diff[:6], found=sorted(got)[:8]), sub="paths", case=case)
+            stray = sorted({d for d in os.listdir(work)} - before - {where})
+            if stray:
+                res.fail(site=setname, clause="nothing_written_outside_the_named_directory", cls=tag, detail=dict(spelling=tag, destination=str(dest), stray=stray[:6]), sub="paths", case=case)
+    finally:
+        os.chdir(cwd0)
+        shutil.rmtree(tmp, ignore_errors=True)
+    res.samples.append(dict(paths_set=setname, spellings=13))
+    return res
+
+
+class _Paths:
+    chunks = 1
+
+    def cases(self, tier, seed):
+        return [dict(sub="paths", set=n, tier=tier) for n in ("rdd2", "estimator", "mr_ref_traj", "bezier")]
+
+    def run(self, case):
+        return explore_paths(case)
+
+
 def json_key(w):
     return tuple(tuple(sorted(o.items())) for o in w)
 
@@ -697,5 +780,5 @@ class _Sub:
         return explore(case)
 
 
-SUBCHECKS = {"together": _Tog(), "env": _Env(), "gen": _Sub(), "seq": _Seq(), "script": _Script()}
-REPLAY = {"together": lambda c: explore_together(c).fails, "gen": lambda c: explore(c).fails, "seq": lambda c: explore_sequence(c).fails, "script": lambda c: explore_script(c).fails, "env": lambda c: explore_env(c).fails}
+SUBCHECKS = {"together": _Tog(), "env": _Env(), "paths": _Paths(), "gen": _Sub(), "seq": _Seq(), "script": _Script()}
+REPLAY = {"together": lambda c: explore_together(c).fails, "gen": lambda c: explore(c).fails, "seq": lambda c: explore_sequence(c).fails, "script": lambda c: explore_script(c).fails, "env": lambda c: explore_env(c).fails, "paths": lambda c: explore_paths(c).fails}
